@@ -664,6 +664,9 @@ func runGated(c *Case) *outcome {
 	tr.disarmAll()
 	gt.disarm()
 	gt.takeCalls()
+	if f := strings.SplitN(c.Family, ":", 3); len(f) >= 2 {
+		g.hit("gate-family:" + f[1])
+	}
 	defer func() {
 		for k, v := range gt.takeCalls() {
 			for i := 0; i < v && i < 64; i++ {
